@@ -401,7 +401,10 @@ func genC16(r *core.Rand, run int) *MuxScenario {
 		case 5: // the same verb and template bound to a different method: a conflict
 			if len(sc.Rules) > 0 {
 				prev := sc.Rules[r.Intn(len(sc.Rules))]
-				if prev.Invalid == "" && !prev.Long && prev.Selector != rule.Selector && !strings.Contains(prev.Template, "{") && (prev.Body == "*" || prev.Body == "") && prev.RespBody == "" {
+				// (not a copy of a copy: that one may have been taken from a
+				// rule of this very method, and a method's second binding of
+				// the same shape is an overlap, not a conflict)
+				if prev.Invalid == "" && !prev.Long && !prev.Conflict && prev.Selector != rule.Selector && !strings.Contains(prev.Template, "{") && (prev.Body == "*" || prev.Body == "") && prev.RespBody == "" {
 					rule.Verb, rule.Template, rule.Body = prev.Verb, prev.Template, prev.Body
 					rule.Path, rule.Want = "", nil
 					rule.Conflict = true
